@@ -273,8 +273,13 @@ def generic_history(exe, rng, idx, emph, cfg=None):
             style = rng.random()
             if style < E("p_dup", 0.1) and k in last_rq:
                 pkt = last_rq[k]
-                if rng.random() < 0.3:   # same id, other authenticator
+                v = rng.random()
+                if v < 0.3:     # same id, other authenticator
                     pkt = h.make_request(k, code=pkt[0], ident=pkt[1])
+                elif v < 0.55:  # same id AND same authenticator, but another kind of packet (Disconnect/CoA/unsupported/reply codes)
+                    attrs = [a for a in R.parse_attrs(pkt) if a[0] != 80]
+                    pkt = R.build(rng.choice([40, 43, 40, 43, 99, 5, 2, 12, 4, 1]), pkt[1], pkt[4:20], attrs + [(80, None)], h.cl[k]["secret"])
+                    h.tag("dup-other-code")
                 h.tag("dup")
             else:
                 code = None
